@@ -640,7 +640,12 @@ class ModelBase(object):
         """
         Returns str(value). This should be overridden if this is not enough.
         """
-        return six.binary_type(value)
+        if isinstance(value, six.binary_type):
+            return value
+
+        # bytes(obj) is not str(obj) in Python 3: it fails for most objects
+        # and returns that many zero bytes for an int.
+        return six.text_type(value).encode('utf8')
 
     @classmethod
     def to_unicode(cls, value):
